@@ -27,18 +27,19 @@ SPEC = {
                   "FSBucket (MkdirAll/Create/Open/WalkDir over a path->file|dir map) returns exactly the results of an "
                   "association list path->bytes, its regular files ARE that list, a refused write leaves the whole tree "
                   "unchanged, a write is refused exactly on a file/directory collision, write-then-read returns the bytes, "
-                  "other objects are unaffected, absent objects report not-exist outside the colliding class, the listing is "
+                  "other objects are unaffected, every absent object reports not-exist (also names that are ancestors or "
+                  "descendants of stored names, fix 8c1d2a3), the listing is "
                   "the stored names with the STRING prefix in component-wise lexicographic (walk) order without duplicates, "
                   "names of ordinary components resolve to exactly their components below the bucket directory, and the "
                   "upload (Week/X.json), merge (date.json) and chart (date.json, start_end.json) names are such names for "
-                  "every week accepted by the strict date parser and every %g rendering over [0-9eE+-.]. Two deviations of "
-                  "the real code from the property are proved as *_refuted theorems, reproduced on the real code by the "
-                  "suite and listed as known findings.",
-    "level_note": "Known findings (real code, see KNOWN_FINDINGS.txt): read-absent-colliding (reading an absent name that is "
-                  "an ancestor/descendant of a stored name gives EISDIR at Read / ENOTDIR instead of ErrObjectNotExist) and "
+                  "every week accepted by the strict date parser and every %g rendering over [0-9eE+-.]. One deviation of "
+                  "the real code from the property is proved as C18_list_exact_refuted, reproduced on the real code by the "
+                  "suite and listed as a known finding.",
+    "level_note": "Known finding (real code, see KNOWN_FINDINGS.txt): "
                   "list-below-non-utf8-dir (objects below a directory whose name is not valid UTF-8 are never listed; the "
-                  "walk error is dropped). The positive theorems exclude exactly these classes (executable predicates "
-                  "`deviating` / `collides` / `walkable`). Not modelled: names with empty, '.' or '..' components (outside "
+                  "walk error is dropped). The positive listing theorems exclude exactly this class (executable predicates "
+                  "`deviating` / `walkable`). The former finding read-absent-colliding is fixed in /repo (8c1d2a3): the "
+                  "oracle class is an ordinary violation again. Not modelled: names with empty, '.' or '..' components (outside "
                   "the property; the model only says where they resolve: C18_name_resolves_inside / example Escapes), "
                   "permissions, disk errors, concurrent writers, partial writes (os.Create truncates before the new content "
                   "is written: a reader can observe an empty or partial object; no temp-file+rename), the GCS backend, "
